@@ -265,6 +265,9 @@ AtomicMove<SlotType, BUFFER_SIZE> {
         loop {
             vp!("am.r.publish", slot_id);
             match self.tail.compare_exchange_weak(slot_id, slot_id.overflowing_add(1).0, Release, Relaxed) {
+                // verification build: the same arm, with a yield point between the publication CAS and the load of `head`
+                #[cfg(feature = "verif")]
+                Ok(new_tail) => { vp!("am.r.len", new_tail); break NonZeroU32::new(u32::max(1, new_tail.overflowing_sub(self.head.load(Relaxed)).0)) },
                 Ok(new_tail) => break NonZeroU32::new(u32::max(1, new_tail.overflowing_sub(self.head.load(Relaxed)).0)),
                 Err(reloaded_tail) => {
                     if reloaded_tail / BUFFER_SIZE as u32 > slot_id / BUFFER_SIZE as u32 {
